@@ -90,8 +90,13 @@ def fingerprint(f):
         depth.append('/'.join(reversed(path)))
     kinds = [type(n).__name__ for n in own_nodes(node)
              if isinstance(n, (ast.If, ast.For, ast.While, ast.Try, ast.With))]
+    from .conddrift import _clean, _subst_text
+    iters = []
+    for n in own_nodes(node):
+        if isinstance(n, (ast.For, ast.AsyncFor, ast.comprehension)):
+            iters.append([unparse(n.target), _clean(_subst_text(f, n.iter))])
     return {'attrs': attrs, 'names': names, 'stmts': stmts, 'calls': calls, 'consts': consts,
-            'compound': kinds, 'depth': depth}
+            'compound': kinds, 'depth': depth, 'iters': iters}
 
 
 def build(pm):
@@ -128,7 +133,17 @@ def compare(ref, cur, vocab, local_names, local_names_ref=frozenset()):
     if ref == cur:
         return []
     out = []
-    same = {k: ref[k] == cur[k] for k in ref}
+    same = {k: ref[k] == cur.get(k) for k in ref}
+    # K: the collection a loop runs over is wrapped in something that drops elements
+    if ref.get('iters') is not None and cur.get('iters') is not None and not same['iters'] and \
+            [t for t, _ in ref['iters']] == [t for t, _ in cur['iters']]:
+        for (t, ri), (_, ci) in zip(ref['iters'], cur['iters']):
+            if ri != ci:
+                why = _collapsed(ri, ci)
+                if why:
+                    out.append(('loop collection collapsed', 'for %s in %s -> %s (%s)' % (
+                        t, ri[:60], ci[:80], why)))
+                    return out
     # A: attribute substituted
     if not same['attrs'] and len(ref['attrs']) == len(cur['attrs']) and same['compound'] and \
             same['names'] and len(ref['stmts']) == len(cur['stmts']):
@@ -273,6 +288,28 @@ def compare(ref, cur, vocab, local_names, local_names_ref=frozenset()):
             out.append(('constant changed', '%r -> %r' % (ref['consts'][pos[0]],
                                                           cur['consts'][pos[0]])))
     return out
+
+
+COLLAPSING = {'dict': 'entries with the same key collapse into one',
+              'set': 'equal elements collapse and the order is lost',
+              'frozenset': 'equal elements collapse and the order is lost',
+              'OrderedDict': 'entries with the same key collapse into one'}
+
+
+def _collapsed(ref_iter, cur_iter):
+    """The current iterable is the reference one passed through dict()/set()/a slice."""
+    try:
+        tree = ast.parse(cur_iter, mode='eval').body
+    except SyntaxError:
+        return None
+    for n in ast.walk(tree):
+        if isinstance(n, ast.Call) and isinstance(n.func, ast.Name) and n.func.id in COLLAPSING \
+                and len(n.args) == 1 and unparse(n.args[0]) == ref_iter:
+            return '%s(): %s' % (n.func.id, COLLAPSING[n.func.id])
+        if isinstance(n, ast.Subscript) and isinstance(n.slice, ast.Slice) and \
+                unparse(n.value) == ref_iter:
+            return 'slice: elements are left out'
+    return None
 
 
 def _tokens(text):
